@@ -371,6 +371,12 @@ RECURSIVE Chain(_, _)
 Chain(m, cid) == IF cid = 0 THEN <<>> ELSE << CallsOf(m, m.cors[cid]) >> \o Chain(m, m.cors[cid].parent)
 
 Live(m) == {i \in 1..Len(m.cors) : m.cors[i].st # "done"}
+\* Some operator on the way to the failing point already holds nil as its left operand and is waiting for its right one: the statement
+\* is bound to fail there with a nil error as well, and an implementation may notice that first (it moves the left operand into a
+\* register before it evaluates the right one).  Then a nil error, with whatever report, is an outcome as good as the specified one.
+RECURSIVE PendingNil(_, _)
+PendingNil(m, cid) == IF cid = 0 THEN FALSE
+                      ELSE (\E i \in 1..Len(m.cors[cid].k) : m.cors[cid].k[i].t = "bina" /\ m.cors[cid].k[i].lv.k = "nil") \/ PendingNil(m, m.cors[cid].parent)
 
 -----------------------------------------------------------------------------
 RECURSIVE Plain(_)
@@ -434,9 +440,9 @@ Aspect(o, r) ==     \* "" when the recorded observation r is the specified one, 
   ELSE IF CmpHas("nocrash") THEN (IF r.kind \in {"val", "err"} THEN "" ELSE "kind")
   ELSE IF "err" \in DOMAIN o THEN
        IF r.kind # "err" THEN "kind"
-       ELSE IF r.err \notin {o.err, o.alt} THEN "class"
+       ELSE IF r.err \notin {o.err, o.alt, IF "alt2" \in DOMAIN o THEN o.alt2 ELSE o.err} THEN "class"
        ELSE IF CmpHas("value") /\ r.out # o.out THEN "output"
-       ELSE IF CmpHas("report") /\ ~ReportOK(o.report, r.report) THEN "report"
+       ELSE IF CmpHas("report") /\ ~(r.err \notin {o.err, o.alt}) /\ ~ReportOK(o.report, r.report) THEN "report"
        ELSE IF CmpHas("residue") /\ ~Clean(r.residue) THEN "residue"
        ELSE ""
   ELSE IF r.kind # "val" THEN "kind"
@@ -480,7 +486,7 @@ Step ==
      ELSE IF "unspec" \in DOMAIN r THEN
           /\ obs' = Append(obs, [unspec |-> TRUE, budget |-> stepno - itemstart > MaxSteps]) /\ status' = "stmtend" /\ si' = Len(Items) + 1
           /\ UNCHANGED <<pi, cors, cur, heap, globals, out, stdin, itemstart, peakk>>
-     ELSE /\ Observe([err |-> r.raise, alt |-> r.alt, out |-> out,
+     ELSE /\ Observe([err |-> r.raise, alt |-> r.alt, alt2 |-> IF PendingNil(M, cur) THEN "nil" ELSE r.raise, out |-> out,
                        report |-> [op |-> r.op, args |-> [i \in 1..Len(r.args) |-> Rendered(r.args[i])],
                                    ctxs |-> LET ch == Chain(M, IF "at" \in DOMAIN r THEN r.at ELSE cur) IN
                                             IF "frame" \in DOMAIN r
